@@ -200,6 +200,15 @@ func TestCheck(t *testing.T) {
 		t.Fatal(err)
 	}
 	if r.Replay != "" {
+		var x struct {
+			Kind string `json:"kind"`
+			Game xGame  `json:"game"`
+		}
+		if err := ev.ReadReplay(r.Replay, &x); err == nil && x.Kind == "cross-process" {
+			xReplay(r, x.Game)
+			r.Finish()
+			return
+		}
 		var w witness
 		if err := ev.ReadReplay(r.Replay, &w); err != nil {
 			t.Fatal(err)
@@ -315,6 +324,14 @@ func TestCheck(t *testing.T) {
 	runtime.GOMAXPROCS(old)
 	close(stopBurn)
 	bw.Wait()
+	floors := []string{"lockstep_moves", "games_completed", "replays_with_trailing_abort_line", "nodes_searched", "games_without_counters_option", "games_with_unsearched_replies", "tiny_soft_limit_already_exceeded_after_depth_0", "ponder_searches_with_node_budget"}
+	if r.Stage != "race" {
+		// the same requests in other processes of the same binary
+		xCompare(r, xGames(r, r.N(32, 320), 12))
+		if len(r.InconclusiveList()) == 0 {
+			floors = append(floors, "cross_process_searches_compared", "cross_process_child_processes")
+		}
+	}
 	r.Count("concurrent_games_goroutines", int64(ev.Workers()))
-	r.Finish("lockstep_moves", "games_completed", "replays_with_trailing_abort_line", "nodes_searched", "games_without_counters_option", "games_with_unsearched_replies", "tiny_soft_limit_already_exceeded_after_depth_0", "ponder_searches_with_node_budget")
+	r.Finish(floors...)
 }
